@@ -20,7 +20,7 @@ RULE = ("histories of ~14 steps over a pool of 5 objects and 2 classes: register
 ASSUMPTIONS = ["harness classes that travel by value live in an importable module without '__' and the caller registers a dict-to-class converter (the sanctioned extension point)",
                "forced replacement of an id is an explicit request, not a silent one", "for an object forcibly registered under two ids only id->object dispatch and the reported id set are checked",
                "marshal has no type-replacement hook by design: by-value only"]
-REQUIRED_REACH = ["returned_as_proxy_after_converter_churn", "steps_ok", "calls_dispatched", "unknown_id_refused", "returned_as_proxy", "returned_by_value", "duplicates_refused", "weak_collected", "registered_listing_ok", "combined_daemon_rounds"]
+REQUIRED_REACH = ["slotted_objects_ok", "returned_as_proxy_after_converter_churn", "steps_ok", "calls_dispatched", "unknown_id_refused", "returned_as_proxy", "returned_by_value", "duplicates_refused", "weak_collected", "registered_listing_ok", "combined_daemon_rounds"]
 SHARD_TIMEOUT = {"quick": 240, "thorough": 2800}
 AUTO = ("serpent", "json", "msgpack")
 
@@ -718,6 +718,95 @@ def converter_churn_phase(P, servertype, rec, r):
         fx.stop()
 
 
+def slotted_phase(P, servertype, rec, r):
+    """Registered objects without an instance __dict__ (a class with __slots__ that reserves room for the two attributes the daemon puts
+    on a registered object - what the register code itself caters for): registration, unregistration by object and the by-value transfer
+    afterwards work as for any other object, and a second unregistration of the same object is refused without touching whoever holds
+    the id now."""
+    @P.server.expose
+    class Slotted(object):
+        __slots__ = ("n", "_pyroId", "_pyroDaemon", "__weakref__")
+
+        def __init__(self, n):
+            self.n = n
+
+        def hello(self):
+            return "slotted %d" % self.n
+
+        def __getstate__(self):
+            return {"n": self.n}
+
+    @P.server.expose
+    class Plain(object):
+        def hello(self):
+            return "plain"
+
+    things = {}
+
+    @P.server.expose
+    class Giver(object):
+        def give(self, i):
+            return things[i]
+
+    fx = fixture.Fixture(servertype=servertype, COMMTIMEOUT=0.0)
+    pay = {"slotted": True, "servertype": servertype}
+    try:
+        fx.register(Giver(), "giver")
+        for k, how in enumerate(("by-object", "by-id", "by-object")):
+            oid = "slot.%d" % k
+            obj = things[k] = Slotted(k)
+            fx.register(obj, oid, weak=(k == 2))
+            for sername in ("serpent", "json", "msgpack"):
+                rec.case(("slotted", servertype, sername, k, how), nontrivial=True)
+                with fx.proxy("giver", serializer=sername) as g:
+                    res = g.give(k)
+                    if not isinstance(res, P.client.Proxy):
+                        rec.violation("registered-object-not-proxied", "a registered object without __dict__ (slots) arrives as %s under %s" % (core.short(res, 80), sername), pay)
+                        return
+                    with res:
+                        res._pyroSerializer = sername
+                        if res.hello() != "slotted %d" % k:
+                            rec.violation("proxy-reaches-other-object", "the proxy for slotted object %d answers %r" % (k, res.hello()), pay)
+                            return
+            fx.daemon.unregister(obj if how == "by-object" else oid)
+            for sername in ("serpent", "json", "msgpack"):
+                with fx.proxy("giver", serializer=sername) as g:
+                    try:
+                        res = g.give(k)
+                    except Exception as x:
+                        res = x
+                    by_value = res == {"n": k} or (isinstance(res, P.errors.SerializeError) and "unsupported serialized class" in str(res) and "Slotted" in str(res))
+                    # (its state arrives as plain data, or as a class dict that the receiver has no converter for: both are 'by value')
+                    if how == "by-object" and not by_value:
+                        # (after unregistration by id the object still carries its marks on the pinned tree: only 'by object' is judged here)
+                        rec.violation("unregistered-object-not-by-value", "slotted object %d was unregistered %s; returned from a method under %s it arrives as %s, expected its state {'n': %d}" % (
+                            k, how, sername, core.short(res, 160), k), pay)
+                        return
+            if how == "by-object":
+                # somebody else takes the id; the old holder is unregistered AGAIN (a cleanup path running twice)
+                other = Plain()
+                fx.register(other, oid)
+                try:
+                    fx.daemon.unregister(obj)
+                    refused = False
+                except P.errors.DaemonError:
+                    refused = True
+                with fx.proxy(oid) as q:
+                    try:
+                        ans = q.hello()
+                    except Exception as x:
+                        ans = repr(x)
+                listed = oid in fx.daemon.objectsById
+                if ans != "plain" or not listed:
+                    rec.violation("unregister-removed-other-object", "object %r was unregistered twice; the second time (refused: %s) the id belonged to another object, which now answers %r (listed: %s)" % (
+                        oid, refused, ans, listed), pay)
+                    return
+                fx.daemon.unregister(other)
+            rec.count("slotted_objects_ok")
+    finally:
+        fx.stop()
+
+
 def plan(tier, seed):
     n = 8 if tier == "quick" else 16
     return [{"i": i, "servertype": "thread" if i % 2 == 0 else "multiplex", "histories": 200 if tier == "quick" else 1500} for i in range(n)]
@@ -742,6 +831,7 @@ def run_shard(shard, rec):
         fx.stop()
     if shard["i"] < 2:
         converter_churn_phase(P, shard["servertype"], rec, r)
+        slotted_phase(P, shard["servertype"], rec, r)
     if shard["servertype"] == "multiplex":
         combined_phase(P, rec, r, 4 if rec.tier == "quick" else 40)
     else:
@@ -750,6 +840,9 @@ def run_shard(shard, rec):
 
 def replay(payload, rec):
     P = fixture.pyro()
+    if payload.get("slotted"):
+        slotted_phase(P, payload.get("servertype", "thread"), rec, gen.rng(rec.seed, "replay"))
+        return
     if payload.get("churn"):
         converter_churn_phase(P, payload.get("servertype", "thread"), rec, gen.rng(rec.seed, "replay"))
         return
